@@ -391,22 +391,23 @@ class Obs:
         self.name, self.props, self.qual, self.do, self.want, self.cmp = name, props, qual, do, want, cmp
 
 
-def observers(h, C):
+def observers(h, C, more=(), more_unis=()):
+    """more / more_unis: further vertex / universe names to read (the scale families of rules/scale.py name bulk objects)"""
     I = h.I
     f = h.fn
     nb, fl = f(c04.FN), f(HELPERS + ".find_links")
     O = []
-    V4 = "abcd"
+    V4 = ["a", "b", "c", "d"] + list(more)
     loc = I.bind_args(nb, [None], {})
     dflt_d = next((k for k in ("FORWARD", "BACKWARD", "ANY") if C[k] == loc.get("direction_sensitive")), None)
     dflt_uh = next((k for k in c04.UHS if C[k] == loc.get("unknown_handling")), None)
     if dflt_d is None or dflt_uh is None:
         raise Unknown("defaults of neighbors() are not among its documented constants")
-    for v in V4 + "U":
+    for v in V4 + ["U"]:
         O.append(Obs(f"{v}.links", ("C03", "C13"), "edgegraph.structure.vertex.Vertex.links", lambda g, v=v: h.getattr(g.obj(v), "links"), lambda m, v=v: list(m.vlinks[v])))
         O.append(Obs(f"{v}.universes", ("C02", "C03", "C13"), "edgegraph.structure.base.BaseObject.universes", lambda g, v=v: h.getattr(g.obj(v), "universes"), lambda m, v=v: sorted(m.vuni[v]),
                      cmp=lambda got, want: isinstance(got, list) and len(got) == len(set(got)) and sorted(got) == want))
-    for u in "UW":
+    for u in ["U", "W"] + list(more_unis):
         O.append(Obs(f"{u}.vertices", ("C02", "C03", "C13"), "edgegraph.structure.universe.Universe.vertices", lambda g, u=u: h.getattr(g.obj(u), "vertices"), lambda m, u=u: list(m.umem[u])))
 
     def links_of(m):
